@@ -344,11 +344,18 @@ main(int argc, char **argv)
 					if (SSL_SESSION_get_master_key(ss, mk, 48) != 48 || memcmp(mk, sp.master_secret, 48) != 0) {
 						TP_VIOL("interop:master-secret-mismatch", "master secrets differ");
 					}
-					for (i2 = 0; i2 < 2; i2 ++) {
-						const char *label = i2 ? "EXPORTER-verif-b" : "EXPORTER-verif-a";
-						int rb = br_ssl_key_export(b.eng, eb, sizeof eb, label, i2 ? "ctx" : NULL, i2 ? 3 : 0);
-						int ro = SSL_export_keying_material(o.ssl, eo, sizeof eo, label, strlen(label),
-							(const unsigned char *)"ctx", 3, i2);
+					for (i2 = 0; i2 < 4; i2 ++) {
+						/* no context; a 3-byte context; an empty context (differs from none: RFC 5705); a 300-byte context */
+						static const char *const labels[4] = { "EXPORTER-verif-a", "EXPORTER-verif-b", "EXPORTER-verif-c", "EXPORTER-verif-long-label-0123456789012345678901234567890123456789" };
+						static unsigned char bigctx[300];
+						const char *label = labels[i2];
+						const unsigned char *cx = i2 == 3 ? bigctx : (const unsigned char *)"ctx";
+						size_t cxl = i2 == 1 ? 3 : (i2 == 3 ? 300 : 0);
+						int rb, ro;
+						memset(bigctx, 0xA5, sizeof bigctx);
+						rb = br_ssl_key_export(b.eng, eb, sizeof eb, label, i2 ? cx : NULL, cxl);
+						ro = SSL_export_keying_material(o.ssl, eo, sizeof eo, label, strlen(label), cx, cxl, i2 != 0);
+						vf_stat("key_exports_compared", 1);
 						if (!rb || ro != 1 || memcmp(eb, eo, sizeof eb) != 0) {
 							TP_VIOL("interop:key-export-mismatch", "exported keying material differs from OpenSSL's");
 						}
